@@ -20,6 +20,10 @@ def main():
         if want and not any(sid.startswith(w) for w in want):
             continue
         meta = json.load(open(meta_p))
+        if meta.get("neutralised_by"):
+            rows.append((sid, meta["property"], f"NEUTRALISED by the repair {meta['neutralised_by']} (the change no longer breaks the property; its demo passes)", ""))
+            print(sid, "NEUTRALISED", flush=True)
+            continue
         patch = os.path.join(d, "patch_rebased.diff")
         if not os.path.exists(patch):
             patch = os.path.join(d, "patch.diff")
@@ -36,7 +40,7 @@ def main():
             fh.write(f"Seeded changes against the quick tier (VERIF_SEED=1), /repo at {head}\n\n| seeded change | check | verdict | violation buckets |\n|---|---|---|---|\n")
             for row in rows:
                 fh.write("| " + " | ".join(row) + " |\n")
-    return 0 if all(v == "CAUGHT" for _, _, v, _ in rows) else 1
+    return 0 if all(v == "CAUGHT" or v.startswith("NEUTRALISED") for _, _, v, _ in rows) else 1
 
 
 if __name__ == "__main__":
